@@ -51,7 +51,9 @@ TAKES_INDEX = {"to_string": False, "finv": False, "fti": True, "f1": False, "f2"
 LISTS = ["[]", "[1]", "[3, 1, 2]", "[0, 1, 2, 3, 4, 5, 6, 7, 8, 9]", "[4, 4, 0.5, -2]", "[1, \"a\", null]",
          "[true, false]", "[[1], [2, 3]]",
          # neighbours that are == but distinguishable, and repeated elements
-         "[0, -0]", "[-0, 0, 0, -0, 5]", "[2, 2, 2]", "[[0], [-0]]"]
+         "[0, -0]", "[-0, 0, 0, -0, 5]", "[2, 2, 2]", "[[0], [-0]]",
+         # lengths where a chunked / parallel / pre-sized implementation of one form would switch strategy
+         "range(17)", "range(33)", "range(65)", "[...range(63), -0, 0, 0.5]", "range(130)"]
 SCALARS = ["5", "\"s\"", "null", "[1, 2]", "{a: 1}"]
 
 
